@@ -19,6 +19,7 @@ import os
 import re
 
 from translator import results as T_res
+from translator import c16_energy as T_en
 from translator.pyexpr import TranslateError
 from vlib import common
 
@@ -123,6 +124,22 @@ def run(ctx):
     # these two do not depend on the generated tables
     rc = ctx.coq(["C16_convert.v"], timeout=600)
     re_ = ctx.coq(["C16_energy.v"], timeout=600)
+    # end-to-end energy identity / reaction balance (on EFLib.C02_QuadForm) with the facts about
+    # the source (thickness rule, quadrature rule, psi = 1/2 sigma.eps) regenerated every run
+    ree = None
+    try:
+        en = T_en.translate(ctx.repo)
+        ctx.obligation("translate:energy-facts", True, json.dumps(en))
+        ctx.cov["translated_energy_facts"] = en
+        open(os.path.join(ctx.build, "Gen_Energy.v"), "w").write(T_en.emit_coq(en))
+        ctx.copy_props("C16/C16_energy_e2e.v")
+        rge = ctx.coq(["Gen_Energy.v"], timeout=120)
+        if rge.ok:
+            ree = ctx.coq(["C16_energy_e2e.v"], timeout=600)
+    except (TranslateError, SyntaxError, OSError) as ex:
+        ctx.obligation("translate:energy-facts", False, str(ex))
+        ctx.violation("translate:energy-facts", "translator rejected the energy-related source: %s (energy_identity_e2e is not re-proved; the implementation-side energy checks still run)" % ex,
+                      {"construct": str(ex)}, found_input=False)
     ctx.sample({"theorem": "component_wiring : forall t, In t all_tables -> forall name, In name (t_adv t) -> covered (t_class t) name = true -> exists e, expected (t_class t) (t_dim t) (t_edim t) (t_sdim t) name = Some e /\\ lookup name (t_tab t) = Some e",
                 "proof": "vm_compute on the regenerated tables + forallb_forall"})
     fails = parse_failures(rw.log if rw is not None else "")
@@ -210,7 +227,7 @@ def run(ctx):
                 report_name(cls, cfg, name, "advertised name without a working branch")
             if not (fails["WIRING_FAILURES"] or fails["BRANCH_FAILURES"]):
                 ctx.violation("proof-broken:C16_wiring.v", "C16_wiring.v fails although no witness was printed", {"log": rw.log[-3000:]}, found_input=False)
-    for r, f in ((rv, "C16_vonmises.v"), (rc, "C16_convert.v"), (re_, "C16_energy.v")):
+    for r, f in ((rv, "C16_vonmises.v"), (rc, "C16_convert.v"), (re_, "C16_energy.v"), (ree, "C16_energy_e2e.v")):
         if r is not None and not r.ok:
             # von Mises: look for a concrete component assignment where the code's formula differs
             found = None
